@@ -21,12 +21,15 @@ Open Scope N_scope.
 Definition a_label : N := 0.
 Definition a_shape : N := 1.
 Definition a_font : N := 18.            (* style.font *)
+Definition a_src_arrow_shape : N := 34. (* source-arrowhead.shape (connections) *)
+Definition a_dst_arrow_shape : N := 37. (* target-arrowhead.shape *)
 
 Definition rect : str := [114;101;99;116;97;110;103;108;101].   (* "rectangle" *)
 
 Definition lower_ascii (c : N) : N := if (65 <=? c) && (c <=? 90) then c + 32 else c.
 (* attributes whose value is a keyword: the compiler stores it lower-cased *)
-Definition keyword_attr (c : N) : bool := (c =? a_shape) || (c =? a_font).
+Definition keyword_attr (c : N) : bool :=
+  (c =? a_shape) || (c =? a_font) || (c =? a_src_arrow_shape) || (c =? a_dst_arrow_shape).
 Definition norm_value (c : N) (v : str) : str := if keyword_attr c then map lower_ascii v else v.
 
 Fixpoint get_attr (c : N) (a : attrs) : option str :=
